@@ -7,6 +7,9 @@ tree = os.path.abspath(sys.argv[1] if len(sys.argv) > 1 else '/repo')
 base = json.load(open('/root/.vp/BASELINE.json'))
 fd, xml = tempfile.mkstemp(suffix='.xml', dir='/var/tmp'); os.close(fd)
 env = dict(os.environ); env.pop('TDDA_TDDA_VERIF', None)
+import shutil
+privtmp = tempfile.mkdtemp(prefix='basetmp_', dir='/var/tmp')  # concurrent runs must not share /tmp
+env['TMPDIR'] = privtmp
 p = subprocess.run(['/venv/bin/python', '-m', 'pytest', '-q', '-p', 'no:cacheprovider',
                     '--timeout=900', '--continue-on-collection-errors',
                     '--junitxml=' + xml], cwd=tree, env=env, capture_output=True, text=True)
@@ -15,6 +18,7 @@ for tc in ET.parse(xml).getroot().iter('testcase'):
     if not list(tc):
         passed.add('%s::%s' % (tc.get('classname'), tc.get('name')))
 os.unlink(xml)
+shutil.rmtree(privtmp, ignore_errors=True)
 missing = [t for t in base['stable_pass'] if t not in passed]
 print('tree=%s passed=%d stable=%d missing=%d' % (tree, len(passed), len(base['stable_pass']), len(missing)))
 for m in missing: print('  NOT PASSING:', m)
